@@ -140,7 +140,7 @@ def state_of(hline):
         i = w.index("STATE") + 1
         while i < len(w) and w[i] not in ("CHOICES", "TRACE"):
             tok = w[i]; i += 1
-            if tok.startswith("value=") or tok.startswith("step="): val = int(tok.split("=")[1])
+            if tok.startswith("value=") or tok.startswith("step="): val = int(tok.split("=")[1])   # step=-1: spin barrier (not readable in the hook)
             elif tok.startswith("t") and ":" in tok:
                 a, b, c = tok[1:].split(":"); thr[int(a)] = (int(b), int(c))
     if "CHOICES" in w:
@@ -249,7 +249,7 @@ else:
             replay_case = with_choices(c, choices)
             if not why.startswith("no_thread_enabled"):
                 found = True
-                ck.violation("real code does not terminate within the step bound (%s)" % why, {"case": replay_case, "impl": a[:3000]})
+                ck.violation("real code does not terminate within the step bound (%s): livelock" % why, {"case": c, "impl": a[:600]})
                 if ck.violations >= 3: break
                 continue
             if kind == "sem":
